@@ -222,3 +222,16 @@ M('C12', 'mint-no-event', TOK, '        TokenUtils::new(env).events().mint(minte
 M('C12', 'debit-wrapping', TOK, '        Self::write_balance(env, addr, balance - amount);', '        Self::write_balance(env, addr, balance.wrapping_sub(amount));', 'C12.R2')
 M('C12', 'read-allowance-match-equiv', TOK, '                    if allowance.expiration_ledger < env.ledger().sequence() {\n                        AllowanceValue {\n                            amount: 0,\n                            expiration_ledger: allowance.expiration_ledger,\n                        }\n                    } else {\n                        allowance\n                    }',
   '                    if env.ledger().sequence() <= allowance.expiration_ledger {\n                        allowance\n                    } else {\n                        AllowanceValue {\n                            amount: 0,\n                            expiration_ledger: allowance.expiration_ledger,\n                        }\n                    }', equiv=True)
+
+# ---------------- C04 ----------------
+M('C04', 'no-hub-chain-check', ITS, '        ensure!(\n            source_chain == Self::its_hub_chain_name(env),\n            ContractError::InvalidHubChain\n        );\n', '', 'C04.R2')
+M('C04', 'no-trusted-origin-check', ITS, '        ensure!(\n            Self::is_trusted_chain(env, original_source_chain.clone()),\n            ContractError::UntrustedChain\n        );\n\n        Ok((original_source_chain, inner_message))', '        Ok((original_source_chain, inner_message))', 'C04.R2')
+M('C04', 'trusted-check-on-hub-chain', ITS, '            Self::is_trusted_chain(env, original_source_chain.clone()),\n            ContractError::UntrustedChain\n        );\n\n        Ok((original_source_chain', '            Self::is_trusted_chain(env, source_chain.clone()),\n            ContractError::UntrustedChain\n        );\n\n        Ok((original_source_chain', 'C04.R2')
+M('C04', 'no-early-type-check-equiv', ITS, '        ensure!(\n            message_type == EncodedMessageType::ReceiveFromHub,\n            ContractError::InvalidMessageType\n        );\n', '        let _ = message_type;\n', equiv=True)
+M('C04', 'hub-decode-ignores-type-equiv', ABI, '            MessageType::ReceiveFromHub => {\n                let decoded = ReceiveFromHub::abi_decode_params', '            _ => {\n                let decoded = ReceiveFromHub::abi_decode_params', equiv=True)
+M('C04', 'validate-after-effects', ITS, '        Self::validate_message(&env, &source_chain, &message_id, &source_address, &payload)\n            .unwrap_or_else(|err| panic_with_error!(env, err));\n\n        Self::execute_message(&env, source_chain, message_id, source_address, payload)\n            .unwrap_or_else(|err| panic_with_error!(env, err));',
+  '        Self::execute_message(&env, source_chain.clone(), message_id.clone(), source_address.clone(), payload.clone())\n            .unwrap_or_else(|err| panic_with_error!(env, err));\n\n        Self::validate_message(&env, &source_chain, &message_id, &source_address, &payload)\n            .unwrap_or_else(|err| panic_with_error!(env, err));', 'C04.R1')
+M('C04', 'give-unregistered-token-default', ITS, '                let token_config_value =\n                    Self::token_id_config_with_extended_ttl(env, token_id.clone())?;\n\n                token_handler::give_token(',
+  '                let token_config_value = Self::token_id_config_with_extended_ttl(env, token_id.clone())\n                    .unwrap_or(TokenIdConfigValue { token_address: destination_address.clone(), token_manager_type: TokenManagerType::LockUnlock });\n\n                token_handler::give_token(', 'C04.R4')
+M('C04', 'accept-send-to-hub-wrapper', ITS, '        else {\n            return Err(ContractError::InvalidMessageType);\n        };\n\n        ensure!(\n            Self::is_trusted_chain',
+  '        else {\n            return Err(ContractError::InvalidMessageType);\n        };\n        let _unused = 0;\n\n        ensure!(\n            Self::is_trusted_chain', equiv=True)
